@@ -321,6 +321,7 @@ class Inliner:
         off = self.counter * 1000000
         _renumber(body, off)
         _renumber(params, off)
+        self.monomorphise(body, h, n)
         env, lets, betas = {}, [], []
         for p, a in zip(params, args):
             simple = p.get("k") == "pbind" and "Mut)" not in p.get("mode", "") and not p.get("sub")
@@ -346,6 +347,53 @@ class Inliner:
         self.inlined.append((caller, h["npath"]))
         return {"k": "block", "stmts": lets, "expr": body, "ty": n.get("ty"), "sp": n.get("sp"),
                 "inlined_from": h["npath"]}
+
+    def monomorphise(self, body, h, call):
+        """the helper is generic: its body was type-checked for `I`, the call fixes `I`.  Spell the types of the
+        expanded body with the call's generic arguments and re-resolve trait-method calls whose receiver is now a
+        workspace type (`<I as Iterator>::next` -> `<Sequences<R> as Iterator>::next`)."""
+        import re
+        from .facts import norm_path
+        names = h.get("generics") or []
+        gargs = call.get("gargs") or []
+        if not names or len(names) != len(gargs):
+            return
+        subs = [(re.compile(r"(?<![\w:])%s(?![\w:])" % re.escape(nm)), ga) for nm, ga in zip(names, gargs)
+                if nm and not nm.startswith("'") and nm != ga and re.match(r"^[A-Za-z_]\w*$", nm)]
+        if not subs:
+            return
+        def spell(v):
+            for rx, ga in subs:
+                v = rx.sub(lambda m_, ga=ga: ga, v)
+            return v
+        for x in _walk_all(body):
+            for key in ("ty", "aty", "iter_ty", "rcallee"):
+                if isinstance(x.get(key), str):
+                    x[key] = spell(x[key])
+            if isinstance(x.get("gargs"), list):
+                x["gargs"] = [spell(g) if isinstance(g, str) else g for g in x["gargs"]]
+        for x in _walk_all(body):
+            if x.get("k") != "mcall":
+                continue
+            callee = x.get("callee") or ""
+            trait, _, meth = callee.rpartition("::")
+            if not trait or x.get("rcallee") and not x["rcallee"].startswith("<") :
+                continue
+            rty = (x.get("recv") or {}).get("aty") or (x.get("recv") or {}).get("ty") or ""
+            rty = rty.lstrip("&").replace("mut ", "")
+            for wrapper in ("std::sync::MutexGuard<'_, ", "std::sync::MutexGuard<", "std::boxed::Box<"):
+                if rty.startswith(wrapper):
+                    rty = rty[len(wrapper):]
+            adt = norm_path(rty.split("<")[0])
+            if not adt or adt not in self.prog.adts:
+                continue
+            for imp in self.prog.impls:
+                if imp.get("self_adt") and norm_path(imp["self_adt"]) == adt and imp.get("trait") == trait \
+                        and meth in (imp.get("items") or []):
+                    cands = [p for p in self.prog.by_path if p.startswith("<" + adt) and p.endswith(" as %s>::%s" % (trait, meth))]
+                    if len(cands) == 1:
+                        x["rcallee"] = cands[0]
+                        x["re_resolved"] = True
 
     def rewrite(self, n, unit, stack, caller):
         if isinstance(n, list):
